@@ -140,12 +140,14 @@ def accumulator_discipline(rep: Report, f: FuncInfo, var: str, clause: str, ret_
         elif isinstance(n, ast.AugAssign) and isinstance(n.target, ast.Name) and n.target.id == var:
             augs.append(n)
     init = max(inits, key=lambda n: pos[id(n)]) if inits else None
-    check(rep, 'ACC', f.fq, f'accumulator {var} initialised to a constant before the accumulation', init is not None,
-          f'`{norm_stmt(init) if init is not None else ""}`',
-          f'no top-level constant initialisation of {var} before the accumulation', f.loc(init) if init is not None
-          else f.loc(), clause)
-    start = pos[id(init)] if init is not None else 0
+    if init is None:
+        # not a violation: the accumulation is written in a form this rule does not read
+        raise AnalysisError(f'{f.fq}: no top-level constant initialisation of the accumulator `{var}` was recognised')
+    check(rep, 'ACC', f.fq, f'accumulator {var} initialised to a constant before the accumulation', True,
+          f'`{norm_stmt(init)}`', '', f.loc(init), clause)
+    start = pos[id(init)]
     good = []
+    first_add = min([pos[id(n)] for n in augs if pos.get(id(n), 0) > start], default=10 ** 9)
     for n in others + augs:
         if pos.get(id(n), 0) <= start:
             continue
@@ -153,6 +155,12 @@ def accumulator_discipline(rep: Report, f: FuncInfo, var: str, clause: str, ret_
             good.append(n)
             rep.ob('ACC', f'{f.fq} :: {norm_stmt(n)}', f.loc(n), True, 'additive update of the accumulator', True,
                    clause)
+        elif isinstance(n, ast.Assign) and (
+                any(isinstance(y, ast.Name) and y.id == var for y in ast.walk(n.value)) or pos[id(n)] < first_add):
+            # `m = f(m, ..)` / `m = reduce(.., m)` may well add to m, and a re-binding before anything was added loses
+            # nothing: neither is a witness of a lost contribution -- the form is not read by this rule
+            raise AnalysisError(f'{f.fq}: `{norm_stmt(n)[:70]}` re-binds the accumulator `{var}` in a form the '
+                                f'accumulation rule does not read')
         else:
             check(rep, 'ACC', f.fq, f'accumulator {var}: {norm_stmt(n)}', False, '',
                   f'`{norm_stmt(n)}` overwrites or subtracts from the accumulator instead of adding to it: '
